@@ -286,6 +286,18 @@ def build(app):
         read_all(app, 'r1')
         return 'filtered-%s-%d-%s' % (name, n, rest)
 
+    @app.route('/lazybody/<m>', method='POST')
+    def lazybody(m):
+        # the body is read only while the server iterates the response (after the handler returned)
+        note('arg', m)
+
+        def pieces():
+            data = app.request.body.read()
+            note('lazy_body', data)
+            yield 'lazy-' + m + '-'
+            yield data.decode('latin1')
+        return pieces()
+
     @app.route('/dated/<m>')
     def dated(m):
         # cookies with request-specific expiry dates (formatted by the framework), one deleted cookie
